@@ -1028,6 +1028,85 @@ def extract_fit_skeleton(fn):
     fmt = lambda l: "[" + "; ".join(l) + "]"
     return "mkSkel %s\n         %s\n         %s\n         %s\n         %s" % (fmt(pre), fmt(epre), fmt(body), fmt(epost), fmt(post))
 
+# --------------------------------------------------------------------------- data-flow skeleton of gibbs_steps (C05)
+COND_OF = {"prob_h_given_v": ("CHgV", 1), "prob_a_given_v": ("CAgV", 1), "prob_v_given_h": ("CVgH", 1), "prob_v_given_ha": ("CVgHA", 2)}
+
+
+def _sampler_cond(funcs, name):
+    """sample_X(self, <srcs>, out=None): t = self.prob_Y(<srcs>, out=out); t = torch.bernoulli(t, out=out); return t  ->  (cond, nsrc)"""
+    fn = funcs.get(name)
+    if fn is None:
+        raise Untranslatable("method %s not found" % name)
+    body = [x for x in fn.body if not (isinstance(x, ast.Expr) and isinstance(x.value, ast.Constant))]
+    params = [a.arg for a in fn.args.args if a.arg != "self"]
+    if len(body) != 3 or not params or params[-1] != "out":
+        raise Untranslatable("%s is not of the form prob -> bernoulli(out=out) -> return" % name)
+    srcs = params[:-1]
+    a1, a2, ret = body
+    if not (isinstance(a1, ast.Assign) and len(a1.targets) == 1 and isinstance(a1.targets[0], ast.Name) and isinstance(a1.value, ast.Call)
+            and isinstance(a1.value.func, ast.Attribute) and ast.unparse(a1.value.func.value) == "self" and a1.value.func.attr in COND_OF
+            and [ast.unparse(x) for x in a1.value.args] == srcs and [(k.arg, ast.unparse(k.value)) for k in a1.value.keywords] == [("out", "out")]):
+        raise Untranslatable("%s: first statement is not `t = self.prob_*(%s, out=out)`" % (name, ", ".join(srcs)))
+    t = a1.targets[0].id
+    if not (isinstance(a2, ast.Assign) and len(a2.targets) == 1 and ast.unparse(a2.targets[0]) == t
+            and ast.unparse(a2.value) == "torch.bernoulli(%s, out=out)" % t):
+        raise Untranslatable("%s: second statement is not `%s = torch.bernoulli(%s, out=out)`" % (name, t, t))
+    if not (isinstance(ret, ast.Return) and ret.value is not None and ast.unparse(ret.value) == t):
+        raise Untranslatable("%s does not return the drawn tensor" % name)
+    cond, n = COND_OF[a1.value.func.attr]
+    if n != len(srcs):
+        raise Untranslatable("%s: wrong number of sources" % name)
+    return cond, n
+
+
+def extract_gibbs_skeleton(funcs, fn):
+    regs = {}
+    body = [x for x in fn.body if not (isinstance(x, ast.Expr) and isinstance(x.value, ast.Constant))]
+    loop = None
+    stage = 0
+    for st in body:
+        src = " ".join(ast.unparse(st).split())
+        if stage == 0 and isinstance(st, ast.Assign) and len(st.targets) == 1 and isinstance(st.targets[0], ast.Name):
+            name = st.targets[0].id
+            if re.fullmatch(r"\(initial_state if overwrite else initial_state\.clone\(\)\)\.to\(self\.weights(_W)?\)", " ".join(ast.unparse(st.value).split())):
+                regs[name] = "RV"
+                continue
+            m = re.fullmatch(r"torch\.zeros\(\*%s\.shape\[:-1\], self\.num_(hidden|aux)\)\.to\(self\.weights(_W)?\)" % re.escape(next((k for k, v in regs.items() if v == "RV"), "v")),
+                             " ".join(ast.unparse(st.value).split()))
+            if m:
+                regs[name] = "RH" if m.group(1) == "hidden" else "RA"
+                continue
+            raise Untranslatable("set-up statement of gibbs_steps outside the skeleton table: %s" % src[:90])
+        if stage == 0 and isinstance(st, ast.For):
+            if st.orelse or ast.unparse(st.iter) != "range(k)" or not isinstance(st.target, ast.Name):
+                raise Untranslatable("the sampling loop is not `for _ in range(k)`")
+            loop, stage = st, 1
+            continue
+        if stage == 1 and isinstance(st, ast.If) and not st.orelse and len(st.body) == 1 \
+                and " ".join(ast.unparse(st.test).split()).replace("(", "").replace(")", "") == "overwrite and v is not initial_state and v.device == initial_state.device" \
+                and ast.unparse(st.body[0]) == "initial_state.copy_(v)":
+            continue                       # write-back when .to() had to copy (storage model: Gibbs.gibbs_call)
+        if stage == 1 and isinstance(st, ast.Return) and st.value is not None and regs.get(ast.unparse(st.value)) == "RV":
+            stage = 2
+            continue
+        raise Untranslatable("statement of gibbs_steps outside the skeleton table: %s" % src[:90])
+    if loop is None or stage != 2:
+        raise Untranslatable("gibbs_steps has no sampling loop / does not return the chain tensor")
+    steps = []
+    for st in loop.body:
+        if not (isinstance(st, ast.Expr) and isinstance(st.value, ast.Call) and isinstance(st.value.func, ast.Attribute)
+                and ast.unparse(st.value.func.value) == "self" and st.value.func.attr.startswith("sample_")):
+            raise Untranslatable("loop statement is not a call of a sample_* method: %s" % ast.unparse(st)[:80])
+        cond, n = _sampler_cond(funcs, st.value.func.attr)
+        kws = {k.arg: ast.unparse(k.value) for k in st.value.keywords}
+        if len(st.value.args) != n or set(kws) != {"out"}:
+            raise Untranslatable("sample_* call with unexpected arguments: %s" % ast.unparse(st)[:80])
+        rr = lambda nm: regs.get(nm, "RX")
+        srcs = [rr(ast.unparse(a)) for a in st.value.args]
+        steps.append("mkG %s %s %s %s" % (rr(kws["out"]), cond, srcs[0], srcs[-1]))
+    return "[" + "; ".join(steps) + "]"
+
+
 # --------------------------------------------------------------------------- locating source functions
 def find_function(tree, qual):
     parts = qual.split(".")
@@ -1085,6 +1164,8 @@ def translate_kernel(repo, spec):
     fn = find_function(tree, spec["func"])
     if fn is None:
         raise Untranslatable("function %s not found in %s" % (spec["func"], spec["file"]))
+    if spec.get("kind") == "gibbs-skeleton":
+        return "Definition gen_%s : list gstep :=\n  %s." % (spec["name"], extract_gibbs_skeleton(class_functions(tree, spec["func"]), fn)), "list gstep"
     if spec.get("kind") == "fit-skeleton":
         return "Definition gen_%s : skel :=\n  %s." % (spec["name"], extract_fit_skeleton(fn)), "skel"
     tr = (VecTr if spec.get("vec") else Tr)(spec, class_functions(tree, spec["func"]))
